@@ -149,7 +149,16 @@ impl Worker {
     pub fn spawn() -> Worker {
         let exe = std::env::current_exe().unwrap();
         // small stack so that runaway recursion shows up quickly as a crash of the worker, never of the parent
-        let mut child = Command::new("sh").arg("-c").arg(format!("ulimit -s 8192; exec {} decode-worker", exe.display()))
+        Worker::spawn_cmd(format!("ulimit -s 8192; exec {} decode-worker", exe.display()))
+    }
+    /// the extracted model behind the same guarded pipe (time limit per request, 4 GB of address space): the v2 column format lets a few
+    /// bytes stand for millions of blocks, on which the model (unary counters, lists) gives up long before the implementation does
+    pub fn spawn_model() -> Worker {
+        let exe = std::env::var("YV_MODEL_EXE").unwrap_or_else(|_| "/verif/.build/runner/model.exe".to_string());
+        Worker::spawn_cmd(format!("ulimit -s 1000000; ulimit -v 6000000; exec {}", exe))
+    }
+    fn spawn_cmd(cmd: String) -> Worker {
+        let mut child = Command::new("sh").arg("-c").arg(cmd)
             .stdin(Stdio::piped()).stdout(Stdio::piped()).stderr(Stdio::null()).spawn().expect("spawn worker");
         let inp = child.stdin.take().unwrap();
         let so: ChildStdout = child.stdout.take().unwrap();
@@ -261,7 +270,33 @@ fn foreign_updates(r: &mut Rng) -> Vec<Vec<u8>> {
             out.push(u);
         }
     }
-    let _ = r;
+    // ids over the whole width of the wire types: 53-bit client ids, clocks up to u32::MAX, origins anywhere (far from the item, in
+    // both directions: the v2 clock columns store differences)
+    let edge32 = |r: &mut Rng| -> u32 { match r.below(8) { 0 => 0, 1 => 1, 2 => (1 << 30) - 1 + r.below(3) as u32, 3 => (1u32 << 31) - 1 + r.below(3) as u32, 4 => 3_000_000_000 + r.below(9) as u32, 5 => u32::MAX - 64 - r.below(9) as u32, 6 => r.below(300) as u32, _ => (r.next() >> 33) as u32 } };
+    for _ in 0..6 {
+        let mut u = vec![];
+        let nclients = r.range(1, 2);
+        u.write_var(nclients as u32);
+        let mut clients: Vec<u64> = (0..nclients).map(|_| rand_client(r)).collect(); clients.sort(); clients.dedup(); if (clients.len() as u64) < nclients { clients.push(clients[0] ^ 1); }
+        clients.sort(); clients.reverse();
+        for c in clients.iter() {
+            let nb = r.range(1, 3);
+            u.write_var(nb as u32); u.write_var(*c); u.write_var(edge32(r).min(u32::MAX - 64));
+            for _ in 0..nb {
+                let (has_o, has_r) = (r.chance(2, 3), r.chance(1, 2));
+                let refn: u8 = *r.pick(&[1u8, 4, 8]);
+                let info = (if has_o { 128 } else { 0 }) | (if has_r { 64 } else { 0 }) | refn;
+                u.write_u8(info);
+                if has_o { u.write_var(if r.chance(1, 2) { *c } else { rand_client(r) }); u.write_var(edge32(r)); }
+                if has_r { u.write_var(if r.chance(1, 2) { *c } else { rand_client(r) }); u.write_var(edge32(r)); }
+                if !has_o && !has_r { if r.chance(1, 2) { u.write_var(1u32); u.write_string("t"); } else { u.write_var(0u32); u.write_var(rand_client(r)); u.write_var(edge32(r)); } }
+                match refn { 1 => u.write_var(r.range(1, 5) as u32), 4 => u.write_string(["a", "bc", "hé"][r.below(3) as usize]), _ => { u.write_var(1u32); Any::Number(1.0).encode(&mut u); } }
+            }
+        }
+        // delete set with wide clocks
+        if r.chance(1, 2) { u.write_var(1u32); u.write_var(rand_client(r)); u.write_var(2u32); let a = edge32(r) / 2; u.write_var(a); u.write_var(r.range(1, 9) as u32); u.write_var(a + 100 + (edge32(r) / 4)); u.write_var(r.range(1, 9) as u32); } else { u.write_var(0u32); }
+        out.push(u);
+    }
     out
 }
 
@@ -285,8 +320,26 @@ fn model_reply_value(m: &str) -> (String, String) {
 }
 
 /// structural form of a v1 update as decoded by the Coq model: Skip blocks (holes) removed, Any maps sorted (the model's printer sorts)
-fn structural(md: &mut Model, v1: &[u8]) -> String {
-    let m = md.ask(&format!("DEC update {}", hex(v1)));
+fn structural(md: &mut Model, v1: &[u8]) -> String { structural_of(md, "update", v1) }
+/// the same for the lib0 v2 form (model: Codec/UpdateV2.v)
+fn structural2(md: &mut Model, v2: &[u8]) -> String { structural_of(md, "update2", v2) }
+/// embed and format payloads are JSON text in v1 and Any values in v2; the model keeps both as bytes, so a comparison ACROSS the two
+/// formats blanks them (their round trip within each format is compared separately, and by the implementation's effect on a document)
+fn blank_payloads(s: &str) -> String {
+    let b: Vec<char> = s.chars().collect(); let mut out = String::new(); let mut i = 0;
+    while i < b.len() {
+        if b[i] == '=' && i + 1 < b.len() && (b[i + 1] == 'e' || b[i + 1] == 'f') {
+            let f = b[i + 1] == 'f'; out.push('='); out.push(b[i + 1]); i += 2;
+            if f { while i < b.len() && b[i] != ':' && b[i] != ' ' && b[i] != ']' { out.push(b[i]); i += 1; } if i < b.len() && b[i] == ':' { out.push(':'); i += 1; } }
+            while i < b.len() && b[i] != ' ' && b[i] != ']' { i += 1; }
+            out.push('*'); continue;
+        }
+        out.push(b[i]); i += 1;
+    }
+    out
+}
+fn structural_of(md: &mut Model, cmd: &str, v1: &[u8]) -> String {
+    let m = md.ask(&format!("DEC {} {}", cmd, hex(v1)));
     if !m.starts_with("ok ") { return m; }
     // remove every token of the shape S<hex>:<hex>+<hex> (a Skip block) together with one adjacent separator
     let b: Vec<char> = m.chars().collect();
@@ -423,6 +476,27 @@ fn c09_case(seed: u64, idx: u64, md: &mut Model, rep: &mut Report) {
             None => disag.push(json!({"kind": "reenc update", "model": m, "update": hex(u), "foreign": foreign})),
         }
     }
+    let mut all2: Vec<Vec<u8>> = pools.upd2.clone();
+    for u in u1s.iter() { if let Ok(x) = Update::decode_v1(u) { all2.push(x.encode_v2()); } }
+    for u in all2.iter() {
+        // model of the v2 column format: it decodes what the implementation wrote, to the same blocks as the v1 form of the same update,
+        // and its own encoder writes the same bytes as the implementation's
+        if let Ok(x) = Update::decode_v2(u) {
+            rep.count("updates_v2_vs_model");
+            let s2 = structural2(md, u);
+            let s1 = structural(md, &x.encode_v1());
+            if !s2.starts_with("ok ") || blank_payloads(&s2) != blank_payloads(&s1) { disag.push(json!({"kind": "v2 decode", "model_v2": s2, "model_v1_of_same_update": s1, "update_v2": hex(u)})); }
+            let m = md.ask(&format!("DEC reenc_update2 {}", hex(u)));
+            let re = x.encode_v2();
+            match m.strip_prefix("ok ") {
+                Some(h) if unhex(h) == re => rep.count("updates_v2_model_encoding_byte_identical"),
+                // (the implementation drops Skip blocks when it encodes, and writes the entries of an Any map in hash order: other bytes
+                //  are expected for updates with holes or with maps; what is compared then is what the bytes decode to)
+                Some(h) => { if structural2(md, &unhex(h)) == structural2(md, &re) { rep.count("updates_v2_model_encoding_same_blocks_other_bytes"); } else { disag.push(json!({"kind": "v2 encode", "model": m, "impl": hex(&re), "update_v2": hex(u)})); } }
+                None => disag.push(json!({"kind": "v2 encode", "model": m, "update_v2": hex(u)})),
+            }
+        }
+    }
     for u in pools.upd2.iter() {
         rep.count("updates_v2");
         match catch(std::panic::AssertUnwindSafe(|| Update::decode_v2(u).map(|x| x.encode_v2()))) {
@@ -478,7 +552,7 @@ fn fixtures(md: &mut Model, rep: &mut Report) {
 }
 
 pub fn run_c09(tier: &str, seed: u64, workers: usize) -> Report {
-    let n = if tier == "thorough" { 6000 } else { 400 };
+    let n = if tier == "thorough" { 6000 } else { 1500 };
     let mut total = parallel(workers, |w, nw| {
         let mut rep = Report::default();
         let mut md = Model::spawn();
@@ -499,7 +573,7 @@ pub fn run_c09(tier: &str, seed: u64, workers: usize) -> Report {
 // ------------------------------------------------------------------------------------------------
 fn mutate(r: &mut Rng, src: &[u8]) -> Vec<u8> {
     let mut b = src.to_vec();
-    let extremes: [&[u8]; 8] = [&[0], &[1], &[0x7f], &[0x80, 0x01], &[0x80, 0x80, 0x80, 0x80, 0x08], &[0xff, 0xff, 0xff, 0xff, 0x0f], &[0xff, 0xff, 0xff, 0xff, 0xff, 0xff, 0xff, 0x0f], &[0xff, 0xff, 0xff, 0xff, 0xff, 0xff, 0xff, 0xff, 0xff, 0x01]];
+    let extremes: [&[u8]; 10] = [&[0], &[1], &[0x7f], &[0x80, 0x01], &[0x80, 0x80, 0x80, 0x80, 0x08], &[0xff, 0xff, 0xff, 0xff, 0x07], &[0xfe, 0xff, 0xff, 0xff, 0x07], &[0xff, 0xff, 0xff, 0xff, 0x0f], &[0xff, 0xff, 0xff, 0xff, 0xff, 0xff, 0xff, 0x0f], &[0xff, 0xff, 0xff, 0xff, 0xff, 0xff, 0xff, 0xff, 0xff, 0x01]];
     for _ in 0..r.range(1, 3) {
         match r.below(8) {
             0 => { if !b.is_empty() { let i = r.below(b.len() as u64) as usize; b[i] = r.below(256) as u8; } }
@@ -529,7 +603,7 @@ fn seeds(seed: u64, idx: u64) -> Seeds {
     let msgs: Vec<Message> = (0..6).map(|_| { let u = r.pick(&u1).clone(); rand_message(&mut r, &u) }).collect();
     let mut multi = vec![]; for m in &msgs { multi.extend(m.encode_v1()); }
     Seeds { per_entry: vec![
-        ("update_v1", u1.clone(), "update"), ("update_v2", p.upd2.clone(), ""),
+        ("update_v1", u1.clone(), "update"), ("update_v2", { let mut v = p.upd2.clone(); for u in u1.iter() { if let Ok(x) = Update::decode_v1(u) { v.push(x.encode_v2()); } } v }, "update2"),
         ("sv_v1", svs.iter().map(|x| x.encode_v1()).collect(), "sv"), ("sv_v2", svs.iter().map(|x| x.encode_v2()).collect(), ""),
         ("snapshot_v1", idsets.iter().zip(svs.iter()).map(|(d, s)| Snapshot::new(s.clone(), d.clone()).encode_v1()).collect(), "snapshot"),
         ("snapshot_v2", idsets.iter().zip(svs.iter()).map(|(d, s)| Snapshot::new(s.clone(), d.clone()).encode_v2()).collect(), ""),
@@ -549,10 +623,31 @@ fn seeds(seed: u64, idx: u64) -> Seeds {
 fn outcome_class(reply: &str) -> String { reply.split(' ').next().unwrap_or("").to_string() }
 fn field(reply: &str, key: &str) -> Option<u64> { reply.split(' ').find_map(|t| t.strip_prefix(key).and_then(|v| v.parse().ok())) }
 
+/// the model's reading of a v2 update under a time and memory limit; None = the model gave up (it is respawned)
+fn ask_model2(md2: &mut Worker, input: &[u8]) -> Option<String> {
+    match md2.ask(&format!("DEC update2 {}", hex(input)), 3000) {
+        Ok(m) if !m.starts_with("err exn") => Some(m),
+        Ok(m) => { if std::env::var("YV_DEBUG").is_ok() { eprintln!("MODEL2 gave up: {} on {}", m, hex(input)); } None }
+        Err(e) => { if std::env::var("YV_DEBUG").is_ok() { eprintln!("MODEL2 gave up: {} on {}", e, hex(input)); } *md2 = Worker::spawn_model(); None }
+    }
+}
+/// A resource failure of an entry point that reads a v2 update is the known run-length expansion (a few bytes of the RLE columns stand
+/// for a huge number of blocks) exactly when the model, reading the same bytes, also produces a huge update or gives up; anything else
+/// is a different failure and keeps its own class.
+fn v2_expansion_class(md2: &mut Worker, entry: &str, input: &[u8], class: String) -> String {
+    if !matches!(entry, "update_v2" | "merge_v2" | "diff_v2" | "svfrom_v2") { return class; }
+    match ask_model2(md2, input) {
+        None => format!("v2-run-length-expansion@{}", entry),
+        Some(m) if m.starts_with("ok ") && m.len() > 32 * input.len() + 4096 => format!("v2-run-length-expansion@{}", entry),
+        Some(_) => class,
+    }
+}
+
 fn c10_run(tier: &str, seed: u64, wi: usize, nw: usize) -> Report {
     let mut rep = Report::default();
     let mut md = Model::spawn();
     let mut wk = Worker::spawn();
+    let mut md2 = Worker::spawn_model();
     let rounds: u64 = if tier == "thorough" { 600 } else { 40 };
     let per_seed: u64 = if tier == "thorough" { 40 } else { 25 };
     for round in 0..rounds {
@@ -573,7 +668,7 @@ fn c10_run(tier: &str, seed: u64, wi: usize, nw: usize) -> Report {
                 let reply = wk.ask(&req, 4000 + 2 * a.len() as u64);
                 let ctx = json!({"entry": entry, "input": hex(&a), "second": hex(&b), "len": a.len()});
                 match reply {
-                    Err(kind) => { rep.fail(json!({"property": "C10", "class": format!("worker-{}", kind.split('(').next().unwrap_or("died")), "detail": kind, "ctx": ctx})); wk = Worker::spawn(); continue; }
+                    Err(kind) => { let class = v2_expansion_class(&mut md2, entry, &a, format!("worker-{}", kind.split('(').next().unwrap_or("died"))); rep.fail(json!({"property": "C10", "class": class, "detail": kind, "ctx": ctx})); wk = Worker::spawn(); continue; }
                     Ok(rp) => {
                         let cls = outcome_class(&rp);
                         rep.count(&format!("outcome_{}", cls));
@@ -585,8 +680,23 @@ fn c10_run(tier: &str, seed: u64, wi: usize, nw: usize) -> Report {
                         }
                         if rp.contains("REENCODE-PANIC") { rep.fail(json!({"property": "C10", "class": "decoded-value-cannot-be-encoded", "reply": rp.chars().take(300).collect::<String>(), "ctx": ctx})); }
                         let limit = 64 * (a.len() + b.len()) as u64 + 65536;
-                        if let Some(mx) = field(&rp, "alloc_max=") { if mx > limit { rep.fail(json!({"property": "C10", "class": format!("allocation-unrelated-to-input@{}", entry), "alloc_max": mx, "limit": limit, "ctx": ctx})); } }
-                        if let Some(us) = field(&rp, "us=") { if us > 200_000 + 200 * (a.len() as u64) { rep.fail(json!({"property": "C10", "class": format!("slow@{}", entry), "micros": us, "ctx": ctx})); } }
+                        let mut expanded = false;
+                        if let Some(mx) = field(&rp, "alloc_max=") { if mx > limit { let class = v2_expansion_class(&mut md2, entry, &a, format!("allocation-unrelated-to-input@{}", entry)); expanded = class.starts_with("v2-run"); rep.fail(json!({"property": "C10", "class": class, "alloc_max": mx, "limit": limit, "ctx": ctx})); } }
+                        if let Some(us) = field(&rp, "us=") { if us > 200_000 + 200 * (a.len() as u64) && !expanded { let class = v2_expansion_class(&mut md2, entry, &a, format!("slow@{}", entry)); expanded = class.starts_with("v2-run"); rep.fail(json!({"property": "C10", "class": class, "micros": us, "ctx": ctx})); } }
+                        // the v2 update reader against the model of the column format (Codec/UpdateV2.v), under a time limit
+                        if *mdcmd == "update2" {
+                            if expanded { rep.count("update_v2_expansions_not_compared"); continue; }
+                            match ask_model2(&mut md2, &a) {
+                                None => rep.count("update_v2_model_gave_up"),
+                                Some(m) => {
+                                    rep.count("update_v2_outcomes_compared_with_model");
+                                    let mcls = outcome_class(&m);
+                                    let agree = matches!((mcls.as_str(), cls.as_str()), ("ok", "ok") | ("err", "err") | ("panic", "panic"));
+                                    if !agree { rep.disagree(json!({"kind": format!("outcome {}", entry), "model": m.chars().take(200).collect::<String>(), "impl": rp.chars().take(200).collect::<String>(), "input": hex(&a)})); }
+                                }
+                            }
+                            continue;
+                        }
                         // model correspondence on the outcome class (+ value for ok) for the v1-modelled entry points
                         if !mdcmd.is_empty() {
                             let m = md.ask(&format!("DEC {} {}", mdcmd, hex(&a)));
@@ -609,7 +719,13 @@ fn c10_run(tier: &str, seed: u64, wi: usize, nw: usize) -> Report {
         if round % 8 == 0 {
             for (entry, input) in [("any", deep_any(200_000, 117)), ("any", deep_any(150_000, 118)), ("any", { let mut v = vec![117u8]; v.extend([0xff, 0xff, 0xff, 0xff, 0x0f]); v }),
                                    ("sv_v1", vec![0xff, 0xff, 0xff, 0xff, 0x0f]), ("idset_v1", vec![1, 1, 0xff, 0xff, 0xff, 0xff, 0x0f]), ("awareness", vec![0xff, 0xff, 0xff, 0xff, 0xff, 0xff, 0xff, 0x0f]),
-                                   ("update_v1", vec![0xff, 0xff, 0xff, 0xff, 0x0f]), ("update_v1", vec![1, 0xff, 0xff, 0xff, 0xff, 0x0f, 1, 0])] {
+                                   ("update_v1", vec![0xff, 0xff, 0xff, 0xff, 0x0f]), ("update_v1", vec![1, 0xff, 0xff, 0xff, 0xff, 0x0f, 1, 0]),
+                                   // 23 bytes of lib0 v2 whose run-length columns stand for 1 000 000 GC blocks (Codec/V2Proofs.v, v2_expansion, scaled up)
+                                   ("update_v2", vec![0, 0, 1, 1, 0, 0, 1, 0, 1, 0, 0, 0, 4, 65, 190, 132, 61, 1, 192, 132, 61, 0, 0]),
+                                   ("svfrom_v2", vec![0, 0, 1, 1, 0, 0, 1, 0, 1, 0, 0, 0, 4, 65, 190, 132, 61, 1, 192, 132, 61, 0, 0]),
+                                   // Codec/V2Proofs.v, rle_update_witness: an Rle run length of 2^31-1 (the run counter is an i32)
+                                   ("update_v2", vec![0, 0, 1, 1, 0, 0, 6, 0, 255, 255, 255, 255, 7, 1, 0, 0, 0, 1, 1, 1, 1, 0, 0]),
+                                   ("svfrom_v2", vec![0, 0, 1, 1, 0, 0, 6, 0, 255, 255, 255, 255, 7, 1, 0, 0, 0, 1, 1, 1, 1, 0, 0])] {
                 rep.evaluations += 1; rep.count("resource_inputs");
                 let req = format!("{} {} _", entry, hex(&input));
                 let ctx = json!({"entry": entry, "input_len": input.len(), "input_prefix": hex(&input[..input.len().min(24)])});
@@ -618,7 +734,7 @@ fn c10_run(tier: &str, seed: u64, wi: usize, nw: usize) -> Report {
                     Ok(rp) => {
                         let limit = 64 * input.len() as u64 + 65536;
                         if outcome_class(&rp) == "panic" { rep.fail(json!({"property": "C10", "class": format!("panic@{}", rp.split(' ').nth(1).unwrap_or("?").rsplit("_at_").next().unwrap_or("?")), "ctx": ctx})); }
-                        if let Some(mx) = field(&rp, "alloc_max=") { if mx > limit { rep.fail(json!({"property": "C10", "class": format!("allocation-unrelated-to-input@{}", entry), "alloc_max": mx, "limit": limit, "ctx": ctx})); } }
+                        if let Some(mx) = field(&rp, "alloc_max=") { if mx > limit { let class = v2_expansion_class(&mut md2, entry, &input, format!("allocation-unrelated-to-input@{}", entry)); rep.fail(json!({"property": "C10", "class": class, "alloc_max": mx, "limit": limit, "ctx": ctx})); } }
                     }
                 }
             }
